@@ -22,7 +22,7 @@ import vlib
 from vlib import f2b, fs2b, b2f, b2fs
 
 ID = "C01"
-GEN = ["Leaves", "Combinators", "Planar", "Misc", "Params", "Flows", "JaxTransforms", "BnafGen", "TriangularGen", "PermGen"]
+GEN = ["Leaves", "Combinators", "Planar", "Misc", "Params", "Flows", "JaxTransforms", "BnafGen", "TriangularGen", "PermGen", "NetGen"]
 RULE = ("expression trees over generated leaves (Affine/Loc/Scale with both signs, Exp, SoftPlus, Tanh, LeakyTanh, "
         "RationalQuadraticSpline with perturbed raw parameters) under generated Chain/Invert, depth<=3, evaluated by all "
         "four methods on boundary-directed inputs (interval ends, knots, ±max_val, tanh(max_val), ±1, 0, float neighbours, "
@@ -32,6 +32,11 @@ RULE = ("expression trees over generated leaves (Affine/Loc/Scale with both sign
         "spline transformers, all parameters perturbed) and hand-stacked BNAF / triangular-spline layer stacks, structure and all four "
         "methods of flow.bijection against the generated factory bodies")
 TRUSTED = [
+    "Coupling / MaskedAutoregressive methods: GENERATED Gen/NetGen.lean (translator tools/py2lean/py2meth.py, typing sheet targets_net.py) over "
+    "the hand-written meanings of the library calls in Model/NetWorld.lean (hstack/concatenate = ++, slices = take/drop, reshape(…, (dim, -1)) = reshapeRows, "
+    "filter_vmap(transformer_constructor) + Vmap(in_axes=if_array(0)) = one scalar bijection per coordinate with SUMMED log-dets, lax.scan(f, init, None, length=n) "
+    "= n-fold iteration, traced x[i] clamps, .at[i].set drops out of range, conditioner / masked MLP = an abstract function) — proved equal to the hand models "
+    "(gen_coupling_eq_model, gen_maf_eq_model) and run against real objects by tools/props/netgen.py",
     "Lean 4.33 kernel; Mathlib v4.33; axioms propext, Classical.choice, Quot.sound",
     "premade flows: py2lean typing sheet tools/py2lean/targets_flows.py; Model/FlowsPre.lean (Scan = generated Chain of the unstacked layers, "
     "filter_vmap(make_layer) = one layer per key, a PRNG key = what it determines) — validated on real factory-built flows by tools/props/flows.py",
@@ -236,6 +241,9 @@ def corr(c, tier, rng):
     c08.corr(c, tier, rng, n_trees=25 if tier == "quick" else 150)
     from props import netinv
     netinv.corr_net(c, tier, rng)
+    # --- the GENERATED methods of Coupling / MaskedAutoregressive (Gen/NetGen.lean) beside the hand model against real objects
+    from props import netgen
+    netgen.corr_gen(c, tier, rng)
     # --- Planar (generated, both activations, conditional through get_planar) and TriangularAffine (hand model)
     from props import permgen
     permgen.corr_generated(c, tier, rng)  # the GENERATED Permute (Gen/PermGen.lean)
